@@ -190,6 +190,17 @@ def build(ctx):
                     k += 1
                     cname, vals = classes[k % len(classes)]
                     cases.append((gs, fs, ps, vals, n <= 2 or k % 4 == 0))
+    # deep structure: ALL gate/mode sequences of 4-5 (thorough 6) operations over 2 modes and 4 gate kinds (and, thorough, 5 operations
+    # over 3 modes and 6 kinds); one parameter, constants elsewhere - what varies is the shape of the dependency graph
+    two = [("R", [0]), ("R", [1]), ("BS", [0, 1]), ("S", [0])]
+    three = two + [("BS", [1, 2]), ("R", [2])]
+    fams = [(two, 4), (two, 5)] if ctx.quick else [(two, 4), (two, 5), (two, 6), (three, 5)]
+    for gset, n in fams:
+        for gs in itertools.product(gset, repeat=n):
+            if len({tuple(m) for _, m in gs}) < 2:
+                continue
+            fs = ("{P}",) + ("0.75",) * (n - 1)
+            cases.append((gs, fs, ("a",) * n, VALUE_CLASSES["dyadic"], False))
     # every value class on the templates that repeat a parameter (where re-solved values must be consistent)
     for (cname, vals), fs in itertools.product(classes, itertools.product(FORMS[:8], repeat=2)):
         cases.append((((("G", [0]), ("H", [1]))), fs, ("a", "a"), vals, False))
